@@ -66,3 +66,104 @@ def Suffix.documented : List Suffix := [.npy, .npz, .jpg, .jpeg, .png, .tif, .ti
 def Suffix.optical : List Suffix := [.jpg, .jpeg, .png, .tif, .tiff, .JPG, .PNG]
 
 end Darsia.Persist
+
+namespace Darsia.Persist
+
+/-! ### metadata round trip: `Image.save` → npz → `imread_from_npz` → constructor → `metadata()`
+
+Values are abstract (`V`): what `np.savez` / pickle do to a value is the external contract — here the identity.
+`Sem V` carries the constants and the value-level helpers the constructors use. -/
+
+structure Sem (V : Type) where
+  none : V
+  two : V
+  ij : V
+  tru : V
+  fls : V
+  rgb : V
+  isNone : V → Bool
+  truthy : V → Bool
+  /-- `str.upper` on the colour space -/
+  up : V → V
+  /-- `"ijk"[:space_dim]` -/
+  defaultIndexing : V → V
+  /-- `space_dim * [1]` -/
+  defaultDims : V → V
+  /-- `dimensions` after writing `height` / `width` / `depth` into the copy -/
+  applyHWD : V → Option V → Option V → Option V → V
+  /-- default origin from space_dim, indexing, dimensions -/
+  defaultOrigin : V → V → V → V
+  /-- `time_num * [None]` for series, else `None` -/
+  defaultDate : V → V
+  /-- `date[0]` of a list, else `date` -/
+  defaultRef : V → V
+  /-- `set_time(None)`: relative times from series flag, dates, reference date -/
+  deriveTime : V → V → V → V
+
+/-- keyword arguments -/
+abbrev Kw (V : Type) := Key → Option V
+
+def Kw.set {V} (kw : Kw V) (k : Key) (v : V) : Kw V := fun k' => if k' = k then some v else kw k'
+def Kw.erase {V} (kw : Kw V) (k : Key) : Kw V := fun k' => if k' = k then Option.none else kw k'
+
+/-- attributes (those that `metadata()` reports) set by `Image.__init__(img, **kw)` -/
+def constructBase {V} (S : Sem V) (kw : Kw V) : Key → V :=
+  let spaceDim := (kw .space_dim).getD S.two
+  let indexing := (kw .indexing).getD (S.defaultIndexing spaceDim)
+  let dims := S.applyHWD ((kw .dimensions).getD (S.defaultDims spaceDim)) (kw .height) (kw .width) (kw .depth)
+  let series := (kw .series).getD S.fls
+  let date := (kw .date).getD (S.defaultDate series)
+  let ref := (kw .reference_date).getD (S.defaultRef date)
+  let t := (kw .time).getD S.none
+  fun
+    | .space_dim => spaceDim
+    | .indexing => indexing
+    | .dimensions => dims
+    | .name => (kw .name).getD S.none
+    | .origin => (kw .origin).getD (S.defaultOrigin spaceDim indexing dims)
+    | .series => series
+    | .scalar => (kw .scalar).getD S.fls
+    | .date => date
+    | .reference_date => ref
+    | .time => if S.isNone t then S.deriveTime series date ref else t
+    | _ => S.none
+
+/-- the three constructors: `ScalarImage` forces `scalar=True`; `OpticalImage` forces `space_dim=2`, `indexing="ij"`,
+`scalar=False` and stores `color_space.upper()` (default `"RGB"`) -/
+def construct {V} (S : Sem V) : Cls → Kw V → Key → V
+  | .scalarImage, kw => constructBase S (kw.set .scalar S.tru)
+  | .opticalImage, kw =>
+    let a := constructBase S (((kw.set .space_dim S.two).set .indexing S.ij).set .scalar S.fls)
+    fun k => if k = .color_space then S.up ((kw .color_space).getD S.rgb) else a k
+  | _, kw => constructBase S kw
+
+/-- `metadata()`: the attributes under the keys of the class (key list: generated) -/
+def metadataOf {V} (keys : Cls → List Key) (c : Cls) (a : Key → V) : Kw V :=
+  fun k => if k ∈ keys c then some (a k) else Option.none
+
+/-- `imread_from_npz` (fixed code): the class is decided by the stored dictionary -/
+def npzDispatch (hasColorSpace scalarFlag : Bool) : Cls :=
+  if hasColorSpace then .opticalImage else if scalarFlag then .scalarImage else .image
+
+/-- `imread(path)` after `img.save(path)` on the metadata level (pickle = identity on values) -/
+def reload {V} (S : Sem V) (md : Kw V) : Cls × (Key → V) :=
+  let c := npzDispatch (md .color_space).isSome (S.truthy ((md .scalar).getD S.fls))
+  (c, construct S c md)
+
+/-- what every constructed image satisfies (and the round trip relies on) -/
+structure Inv {V} (S : Sem V) (c : Cls) (a : Key → V) : Prop where
+  time : S.isNone (a .time) = true → S.deriveTime (a .series) (a .date) (a .reference_date) = a .time
+  /-- the `scalar` flag is a bool -/
+  scalarBool : a .scalar = S.tru ∨ a .scalar = S.fls
+  scalarCls : c = .scalarImage → a .scalar = S.tru
+  optical : c = .opticalImage →
+    a .scalar = S.fls ∧ a .space_dim = S.two ∧ a .indexing = S.ij ∧ S.up (a .color_space) = a .color_space
+
+/-- well-behaved value helpers -/
+structure Sem.OK {V} (S : Sem V) : Prop where
+  truthy_tru : S.truthy S.tru = true
+  truthy_fls : S.truthy S.fls = false
+  up_idem : ∀ v, S.up (S.up v) = S.up v
+  hwd_none : ∀ d, S.applyHWD d Option.none Option.none Option.none = d
+
+end Darsia.Persist
